@@ -185,11 +185,21 @@ PROPS["C07"] = {
     ],
 }
 
+PROPS["C06"] = {
+    "mir": "c06",
+    "level": "other",
+    "explanation": "Symbolic checking over the real MIR (z3): per-field-type summary of type_allows_value (the verdict is exactly the JSON accessor of the declared type, optional = null or inner verdict, enum = declared variant), validate_payload returns Ok only if every present field passed, absent fields are optional-only by construction of the loop, and no extra key is present; store::handle reaches the shard only for a defined type, non-empty type and context id, Ok validation and Ok time normalisation; a failed or repeated DEFINE leaves the registry unchanged.",
+    "trusted_base": MIR_TRUSTED + ["serde_json::Value accessors (is_string, as_i64, as_u64, as_f64, is_boolean, is_number, is_null, as_str, as_object) behave as documented"],
+    "outside": [
+        "the 'if' direction (every conforming payload is accepted) and acceptance of concrete JSON shapes inside serde_json's accessors (e.g. as_f64 accepts integers)",
+        "'leaves no trace in any later read' (histories), unparseable times inside chrono, parser-level rejection of non-flat payloads",
+    ],
+}
+
 # Properties not (or not yet) claimed, each with the reason. Entries are removed from here
 # when a check for the property is registered in PROPS.
 NOT_APPLICABLE = {
     "C04": "order is decided by schedules of concurrent flows, BinaryHeap tie-breaking over HashMap-materialised rows and a BTreeMap<String,Vec<Event>> memtable; none of these finishes under Kani (3-row merger > 25 min, 3 inserts > 15 min) and no schedule explorer belongs to this technique",
-    "C06": "validate_payload / type_allows_value operate on serde_json::Value and schemas held in HashMaps: Value's recursive PartialEq/Clone/drop glue alone exceeds 600 s / 9 GB under Kani, and acceptance is a data relation, not a guard/ordering fact the MIR engine can state; the one decidable ordering fact (a failed or repeated DEFINE leaves the registry unchanged) is decided under C01 B-6/B-6b",
     "C12": "the routing hash sits behind ShardManager (tokio senders) and its stability across process lifetimes is a fact about DefaultHasher that no symbolic run observes; fan-out completeness is async; the only reachable kernel (shard tag of event ids) is already decided under C18 A-1/A-3 and alone would be too thin a claim",
     "C14": "everything the statement quantifies over is history-dependent (late events at the high-water second, frame store, pruning by zone creation time, flush barrier) and lives in async / HashMap code; the high-water-mark comparison kernel alone would be a vacuous claim",
     "C15": "group.rs/matcher.rs operate on HashMap<String, GroupedRowIndices> and HashMap-backed candidate zones; at 3-4 min per hash-map operation under Kani no harness with two events per side finishes, and the two-pointer sweep is a data-dependent loop the MIR path engine cannot summarise",
